@@ -111,6 +111,7 @@ type c19Case struct {
 	Freeze int `json:"freeze,omitempty"`
 	// Seed seeds the conns' PRNGs (which choose the packet numbers to skip).
 	Seed uint64 `json:"seed"`
+	Aim  string `json:"aim,omitempty"`
 }
 
 const (
@@ -321,6 +322,33 @@ func c19Gen(t *rapid.T) c19Case {
 	c.Seed = uint64(rapid.IntRange(0, 999).Draw(t, "seed"))
 	if pct("freeze") < 30 {
 		c.Freeze = rapid.IntRange(1, 2*len(c.Streams)).Draw(t, "freezeon")
+	}
+	if pct("aim-reset-after-partial-ack") < 10 {
+		// A stream whose FIN can be acknowledged while earlier data is still missing, and
+		// whose reader aborts at once (STOP_SENDING): several packets of data, losses
+		// early in that direction, the acceptor closing right away. (Reads of 65536
+		// keep the case outside the open finding c19-closeread-stale-fastpath-buffer.)
+		a := c19Stream{
+			Server: rapid.Bool().Draw(t, "aim-server"),
+			Fwd:    c19Dir{Ops: []c19Op{{K: "write", N: rapid.IntRange(2500, 9000).Draw(t, "aim-n")}, {K: "close"}}, Reads: []int{65536}},
+			Rev:    c19Dir{Ops: []c19Op{{K: "close"}}, Reads: []int{65536}},
+			Early:  2,
+		}
+		if len(c.Streams) < 6 {
+			c.Streams = append(c.Streams, a)
+		} else {
+			c.Streams[5] = a
+		}
+		fs := []c19Fault{
+			{Gap: rapid.IntRange(0, 6).Draw(t, "aim-g1"), K: "drop"},
+			{Gap: rapid.IntRange(0, 3).Draw(t, "aim-g2"), K: "drop"},
+		}
+		if a.Server {
+			c.SC = append(fs, c.SC...)
+		} else {
+			c.CS = append(fs, c.CS...)
+		}
+		c.Aim = "reset-after-partial-ack"
 	}
 	return c19Norm(c)
 }
@@ -688,6 +716,23 @@ func (x *c19Run) diag(d *c19DirRun) string {
 	return out
 }
 
+// c19SenderAckedAll inspects the sending stream after Close returned nil: its set of
+// acknowledged bytes must be exactly [0,total) and the FIN must have been acknowledged.
+func c19SenderAckedAll(s *Stream, total int) string {
+	s.outgate.lock()
+	defer s.outUnlock()
+	var acked int64 = -1
+	if len(s.outacked) == 0 && total == 0 {
+		acked = 0
+	} else if len(s.outacked) > 0 && s.outacked[0].start == 0 {
+		acked = s.outacked[0].end
+	}
+	if acked < int64(total) || !s.outclosed.isReceived() {
+		return fmt.Sprintf("the sender holds acknowledgements for bytes [0,%d) of %d (FIN acknowledged: %v; the peer aborted its read side)", max(acked, 0), total, s.outclosed.isReceived())
+	}
+	return ""
+}
+
 func (x *c19Run) writer(d *c19DirRun, s *Stream, early bool, ownReader <-chan struct{}) {
 	defer close(d.wdone)
 	for _, op := range d.spec.Ops {
@@ -736,6 +781,11 @@ func (x *c19Run) writer(d *c19DirRun, s *Stream, early bool, ownReader <-chan st
 			if d.closeErr == nil {
 				if !d.prefix {
 					d.ackFail = x.peerHasAll(d)
+				} else {
+					// The peer aborted its read side and no longer records what it
+					// receives; what can still be decided is the sender's own
+					// bookkeeping: nil means every byte and the FIN were acknowledged.
+					d.ackFail = c19SenderAckedAll(s, d.wrote)
 				}
 				if d.freeze {
 					x.net.freeze()
@@ -1233,6 +1283,9 @@ func c19RunCase(t *testing.T, c c19Case, r *vp.Rec) (err error) {
 	}
 	if len(c.Streams) >= 2 {
 		r.Class("multi-stream")
+	}
+	if c.Aim != "" {
+		r.Class("aim:" + c.Aim)
 	}
 	small, big, bidi, uni, closes, early, finonly := false, false, false, false, false, false, false
 	for _, k := range []c19Cfg{c.Cli, c.Srv} {
